@@ -273,6 +273,33 @@ def agrees(expected: Any, got: Any) -> bool:
 # ---------------------------------------------------------------------------------------
 # running the real code
 
+class NonTermination(Exception):
+    """The library call did not return within CALL_LIMIT_S seconds (calls normally take well under a millisecond)."""
+
+
+CALL_LIMIT_S = 10.0
+
+
+class time_limit:
+    """Bound one call into the library; a pure-Python loop that never ends is interrupted by SIGALRM."""
+
+    def __enter__(self) -> None:
+        import signal
+        import threading
+        self.on = threading.current_thread() is threading.main_thread() and hasattr(signal, "setitimer")
+        if self.on:
+            def _raise(_sig: int, _frm: Any) -> None:
+                raise NonTermination(f"no result after {CALL_LIMIT_S}s")
+            self.old = signal.signal(signal.SIGALRM, _raise)
+            signal.setitimer(signal.ITIMER_REAL, CALL_LIMIT_S)
+
+    def __exit__(self, *a: Any) -> None:
+        import signal
+        if self.on:
+            signal.setitimer(signal.ITIMER_REAL, 0)
+            signal.signal(signal.SIGALRM, self.old)
+
+
 def real_encode(obj: Any, vals: Dict[str, Any], rq: Optional[bytes]) -> Dict[str, Any]:
     """{pdu | exc, lib, overlap}"""
     from odxtools.exceptions import OdxError, OdxWarning
@@ -280,7 +307,8 @@ def real_encode(obj: Any, vals: Dict[str, Any], rq: Optional[bytes]) -> Dict[str
     with warnings.catch_warnings(record=True) as ws:
         warnings.simplefilter("always")
         try:
-            pdu = obj.encode(coded_request=rq, **vals) if rq is not None else obj.encode(**vals)
+            with time_limit():
+                pdu = obj.encode(coded_request=rq, **vals) if rq is not None else obj.encode(**vals)
             out["pdu"] = bytes(pdu)
         except Exception as e:  # noqa: BLE001
             out["exc"] = type(e).__name__
@@ -298,7 +326,8 @@ def real_decode(obj: Any, pdu: bytes) -> Dict[str, Any]:
         warnings.simplefilter("ignore")
         try:
             ds = DecodeState(coded_message=bytes(pdu))
-            out["vals"] = obj.decode_from_pdu(ds)
+            with time_limit():
+                out["vals"] = obj.decode_from_pdu(ds)
             out["cursor"] = ds.cursor_byte_position
         except Exception as e:  # noqa: BLE001
             out["exc"] = type(e).__name__
